@@ -519,7 +519,7 @@ def same_graph_twice(rng):
 
 
 def run(ctx):
-    n = 150 if ctx.tier == "quick" else 600
+    n = 150 if ctx.tier == "quick" else 9000
     core.WARM_P = 0.0
     if ctx.replay:
         c = ctx.replay["case"]
